@@ -63,7 +63,8 @@ type tokEnv struct {
 	last     chain.M
 	perBlock int
 	record   bool
-	cfg      chain.M // effective driver configuration (written as the Config event)
+	cfg      chain.M // effective driver configuration (recorded in the Init line)
+	nsSwap   bool    // random issues may use the swap target's min unit as a symbol
 }
 
 func newTokEnv(fl *drv.Flags) *tokEnv {
@@ -74,6 +75,7 @@ func newTokEnv(fl *drv.Flags) *tokEnv {
 		mintDen:  fl.CfgInt("mintden", 2),
 		perBlock: int(fl.CfgInt("perblock", 2)),
 		record:   os.Getenv("VERIF_RECORD_DIR") != "",
+		nsSwap:   fl.CfgInt("nsswap", 0) == 1,
 	}
 	for i := int64(1); i <= fl.CfgInt("users", 3); i++ {
 		e.users = append(e.users, fmt.Sprintf("u%d", i))
@@ -90,7 +92,8 @@ func newTokEnv(fl *drv.Flags) *tokEnv {
 		"minunits": fl.CfgStr("minunits", "maa:mbb"), "stake": fmt.Sprint(initStake), "basefee": fmt.Sprint(baseFee),
 		"taxnum": fmt.Sprint(taxNum), "taxden": fmt.Sprint(e.taxDen), "mintnum": fmt.Sprint(mintNum),
 		"mintden": fmt.Sprint(e.mintDen), "regin": fl.CfgStr("regin", ""), "regout": fl.CfgStr("regout", ""),
-		"regrn": fmt.Sprint(fl.CfgInt("regrn", 1)), "regrd": fmt.Sprint(fl.CfgInt("regrd", 1))}
+		"regrn": fmt.Sprint(fl.CfgInt("regrn", 1)), "regrd": fmt.Sprint(fl.CfgInt("regrd", 1)),
+		"nsswap": fmt.Sprint(fl.CfgInt("nsswap", 0))}
 	accts := map[string]string{}
 	for _, u := range e.users {
 		accts[u] = fmt.Sprintf("%d%s", initStake, stake)
@@ -589,9 +592,12 @@ func (e *tokEnv) hook(ev chain.M) (ok, panicked bool) {
 	if !known {
 		return false, false
 	}
+	// the token whose MIN UNIT is ev.mu (GetToken would try the name as a symbol first)
 	var contract string
-	if t, err := c.K.Token.GetToken(c.Ctx(), chain.Str(ev, "mu")); err == nil {
-		contract = t.GetContract()
+	for _, t := range c.K.Token.GetTokens(c.Ctx(), nil) {
+		if t.GetMinUnit() == chain.Str(ev, "mu") {
+			contract = t.GetContract()
+		}
 	}
 	if contract == "" {
 		return false, false
@@ -843,6 +849,20 @@ func tokRandom(fl *drv.Flags, rng *rand.Rand, w *chain.TraceWriter) {
 	}
 }
 
+// crossNames: min-unit names usable as symbols.  The swap registry's target min
+// unit is left out unless nsswap=1: a token whose SYMBOL equals it makes
+// calcFeeTokenMinted take that token's scale (finding F27, C10).
+func (e *tokEnv) crossNames() []string {
+	var out []string
+	for _, m := range e.minUnits {
+		if reg, ok := e.reg["maa"].(chain.M); ok && reg["to"] == m && !e.nsSwap {
+			continue
+		}
+		out = append(out, m)
+	}
+	return out
+}
+
 func (e *tokEnv) randomEvent(rng *rand.Rand, normal []string) chain.M {
 	st := e.last
 	tok := st["tok"].(chain.M)
@@ -887,6 +907,45 @@ func (e *tokEnv) randomEvent(rng *rand.Rand, normal []string) chain.M {
 		}
 		return x
 	}
+	// a name that is the symbol of token A and the min unit of another token B:
+	// A's owner acts on the coin (resolved by min unit -> B), B's owner acts on the
+	// symbol (resolved by symbol -> A)
+	byMin := st["byMinUnit"].(chain.M)
+	var shared []string
+	for _, sname := range syms {
+		if other, ok := byMin[sname].(string); ok && other != sname {
+			shared = append(shared, sname)
+		}
+	}
+	if len(shared) > 0 && rng.Intn(6) == 0 {
+		name := pick(rng, shared)
+		a := tok[name].(chain.M)                  // symbol = name
+		b := tok[byMin[name].(string)].(chain.M) // min unit = name
+		switch rng.Intn(5) {
+		case 0, 1:
+			ev := tokEvent("Mint")
+			ev["who"], ev["mu"], ev["amt"] = a["owner"].(string), name, int64(1+rng.Intn(5))
+			if rng.Intn(3) == 0 {
+				ev["who"] = b["owner"].(string)
+			}
+			return ev
+		case 2:
+			ev := tokEvent("Burn")
+			ev["who"], ev["mu"], ev["amt"] = pick(rng, []string{a["owner"].(string), b["owner"].(string)}), name, int64(1+rng.Intn(3))
+			return ev
+		case 3:
+			ev := tokEvent("Edit")
+			ev["who"], ev["sym"] = pick(rng, []string{a["owner"].(string), b["owner"].(string)}), name
+			ev["max"] = int64(rng.Intn(12))
+			ev["mintable"] = pick(rng, []string{"", "true", "false"})
+			return ev
+		default:
+			ev := tokEvent("TransferOwner")
+			ev["who"], ev["sym"] = pick(rng, []string{a["owner"].(string), b["owner"].(string)}), name
+			ev["to"] = pick(rng, normal)
+			return ev
+		}
+	}
 	x := rng.Intn(100)
 	switch {
 	case x < 12 || len(syms) == 0:
@@ -897,6 +956,14 @@ func (e *tokEnv) randomEvent(rng *rand.Rand, normal []string) chain.M {
 		ev["who"] = pick(rng, normal)
 		ev["sym"] = pick(rng, symbolPool)
 		ev["mu"] = pick(rng, e.minUnits)
+		// symbols and min units are separate key spaces: every third issue uses a
+		// min-unit name as the SYMBOL, so that one name denotes two tokens and every
+		// handler's lookup (by symbol / by min unit) is put to the test
+		if rng.Intn(3) == 0 {
+			if pool := e.crossNames(); len(pool) > 0 {
+				ev["sym"] = pick(rng, pool)
+			}
+		}
 		if rng.Intn(10) == 0 {
 			ev["mu"] = stake
 		}
